@@ -703,6 +703,18 @@ def malformed_battery():
         ("A B\nlet x =", "truncated inside a let"),
         ("A B\n(1 +", "truncated inside an expression"),
         ("A B\n1 1 end loop\n", "end in a row"),
+        # second round: blocks cut off after blank / comment-only lines; duplicates around unsorted names
+        ("A B\nloop(i,2)\n(i) 0\n\n", "block open at EOF after a blank line"),
+        ("A B\nloop(i,2)\n(i) 0\n\n\n", "block open at EOF after two blank lines"),
+        ("A B\nloop(i,2)\n1 1\n# c\n", "block open at EOF after a comment-only line"),
+        ("A B\nwhile(1)\n1 1\n \t\n", "while open at EOF after a whitespace-only line"),
+        ("A B\nloop(i,2)\n\n", "loop header followed only by a blank line"),
+        ("A B\nloop(i,2)\nloop(k,2)\n1 1\nend loop\n\n", "outer block open at EOF after a blank line"),
+        ("B A B\n1 1 1\n", "duplicate header name around a smaller one"),
+        ("A B D C D\n1 1 1 1 1\n", "duplicate header name after an unsorted pair"),
+        ("CLK A B Y CLK\n1 1 1 1 1\n", "duplicate first and last header name"),
+        ("Z A B C D E F Z\n1 1 1 1 1 1 1 1\n", "duplicate header name, eight columns"),
+        ("b a c b\n1 1 1 1\n", "duplicate lower-case header name, unsorted"),
     ]
     good = [
         ("A B\n1 1", "valid, no trailing newline"),
@@ -995,7 +1007,7 @@ LAYOUT_PROGRAMS = {
     ],
     "calls": [
         ["let", "a", "=", "6", ";"],
-        ["(", "ite", "(", "a", ">", "5", ",", "7", ",", "8", ")", ")", "(", "signExt", "(", "4", ",", "15", ")", "&", "255", ")", "X"],
+        ["(", "ite", "(", "a", ">", "5", ",", "7", ",", "8", ")", ")", "(", "ite", "(", "4", "<", "a", ",", "15", ",", "3", ")", "&", "255", ")", "X"],
         ["(", "1", "<<", "2", ")", "(", "a", ">=", "3", ")", "(", "a", "!=", "3", ")"],
         ["(", "~", "a", "&", "7", ")", "(", "!", "a", ")", "(", "-", "a", "+", "20", ")"],
         ["(", "a", "%", "4", ")", "(", "a", "/", "4", ")", "(", "a", "^", "1", ")"],
@@ -1008,8 +1020,17 @@ LAYOUT_PROGRAMS = {
         ["10", "255", "128"],
         ["let", "z", "=", "0", ";"],
         ["(", "z", "+", "16", ")", "(", "100", "-", "64", ")", "8"],
-        ["bits", "(", "8", ",", "170", ")"],
+        ["bits", "(", "3", ",", "5", ")"],
         ["repeat", "(", "3", ")", "7", "0", "(", "n", "+", "0", ")"],
+        # values whose hex spelling starts with a letter that also occurs in a radix prefix (b / B), or is all zeros
+        ["176", "11", "187"],
+        ["(", "2989", "&", "255", ")", "(", "48879", ">>", "8", ")", "(", "2827", "%", "256", ")"],
+        ["bits", "(", "2", ",", "3", ")", "11"],
+        ["(", "0", "+", "0", ")", "0", "0"],
+    ],
+    "runtime-error": [
+        ["1", "2", "3"],
+        ["(", "signExt", "(", "4", ",", "15", ")", ")", "0", "X"],
     ],
     "rejected-row": [
         ["1", "1", "1"],
